@@ -123,7 +123,7 @@ def run(res, tier, seed, replay):
 
 
 def run_pure(res, tier, seed, replay):
-    ob = obligations_or_violation(res, ["C13"])
+    ob = obligations_or_violation(res, ["C13", "C13float"])
     # the second tie (DESIGN 8.8): BrokerCost::{calc, trade_impact, trade_impact_total} and Portfolio's two cost
     # methods are translated from the source text as it is at this run and proved equal to Model/Cost.v for every Num F.
     # Never an alarm by itself: whatever it says, the sampling below decides exactly as before (a failed equivalence
